@@ -384,22 +384,105 @@ def _per_agent_or(arg: ast.AST) -> Tuple[bool, str]:
     return False, f"unrecognised form `{short(arg, 80)}`"
 
 
-def _step_flags(cfg: CFG, at: Node, e: ast.AST, depth: int = 3) -> Set[int]:
+class _Scope:
+    """Where an expression is evaluated: the CFG of one function and, inside a local helper, the binding of the helper's parameters to the
+    argument expressions of the call (each evaluated in the caller's scope at the node of the call).  A helper is a function the call denotes
+    without any knowledge of the library: a function nested in the calling function, a function of the caller's module, or (`self.f(...)`) a
+    method of the caller's class."""
+
+    MAX_LEVEL = 3
+
+    def __init__(self, repo: Repo, owner: Fn, node: ast.AST, bind: Optional[Dict[str, tuple]] = None, outer: Optional[tuple] = None, level: int = 0):
+        self.repo, self.owner, self.node = repo, owner, node
+        self.cfg = CFG(node)
+        self.bind = bind or {}
+        self.outer = outer  # (scope, node) of the call, for a nested helper that reads variables of the enclosing function
+        self.level = level
+
+    def callee(self, call: ast.Call) -> Optional[ast.AST]:
+        f = call.func
+        if isinstance(f, ast.Name):
+            for root in (self.node, self.owner.node):
+                nested = [x for x in ast.walk(root) if isinstance(x, (ast.FunctionDef, ast.AsyncFunctionDef)) and x is not root and x.name == f.id]
+                if nested:
+                    return nested[0] if len(nested) == 1 else None
+            if any(isinstance(x, ast.Name) and x.id == f.id and isinstance(x.ctx, ast.Store) for x in ast.walk(self.node)):
+                return None  # a local of that name hides the module's function
+            m = self.owner.mod.functions.get(f.id)
+            return m.node if m is not None else None
+        if isinstance(f, ast.Attribute) and isinstance(f.value, ast.Name) and f.value.id in ("self", "cls") and self.owner.cls is not None:
+            m = self.repo.find_method(self.owner.cls, f.attr)
+            return m.node if m is not None else None
+        return None
+
+    def enter(self, fd: ast.AST, call: ast.Call, at: Node) -> Optional["_Scope"]:
+        """The scope of the helper's body for this call; None when the arguments cannot be matched to parameters one by one."""
+        if self.level >= self.MAX_LEVEL or fd is self.node:
+            return None
+        a = fd.args
+        params = [x.arg for x in a.posonlyargs + a.args]
+        static = any(dotted(d) == "staticmethod" for d in fd.decorator_list)
+        if isinstance(call.func, ast.Attribute) and not static:
+            params = params[1:]
+        if a.vararg or a.kwarg or any(isinstance(x, ast.Starred) for x in call.args) or any(k.arg is None for k in call.keywords) \
+                or len(call.args) > len(params):
+            return None
+        bind: Dict[str, tuple] = {p: (self, at, v) for p, v in zip(params, call.args)}
+        names = params + [x.arg for x in a.kwonlyargs]
+        for k in call.keywords:
+            if k.arg not in names or k.arg in bind:
+                return None
+            bind[k.arg] = (self, at, k.value)
+        # (a parameter left to its default is not bound: a default is evaluated at definition time and carries no flag)
+        nested = any(x is fd for x in ast.walk(self.node))
+        return _Scope(self.repo, self.owner, fd, bind, (self, at) if nested else None, self.level + 1)
+
+    def returns(self) -> List[Tuple[Node, ast.AST]]:
+        return [(n, n.ast.value) for n in self.cfg.live_nodes() if n.kind == "stmt" and isinstance(n.ast, ast.Return) and n.ast.value is not None]
+
+    def helper_body(self, call: ast.AST, at: Node) -> Optional[Tuple["_Scope", str]]:
+        if not isinstance(call, ast.Call):
+            return None
+        fd = self.callee(call)
+        inner = self.enter(fd, call, at) if fd is not None else None
+        return (inner, fd.name) if inner is not None else None
+
+
+def _step_flags(sc: _Scope, at: Node, e: ast.AST, depth: int = 3) -> Set[int]:
     """Which of the per-agent flag dictionaries returned by `<env>.step(...)` (position 2: termination, position 3:
-    truncation) the expression `e` evaluated at node `at` is computed from, following local definitions."""
+    truncation) the expression `e` evaluated at node `at` is computed from, following local definitions; the value of a call of a local
+    helper is computed from what the helper returns, with its parameters standing for the arguments."""
     out: Set[int] = set()
+    cfg = sc.cfg
     bound = {t.id for x in ast.walk(e) if isinstance(x, ast.comprehension) for t in ast.walk(x.target) if isinstance(t, ast.Name)}
-    for x in ast.walk(e):
+    stack = [e]
+    while stack:
+        x = stack.pop()
+        inner = sc.helper_body(x, at)
+        if inner is not None:
+            for r, v in inner[0].returns():
+                out |= _step_flags(inner[0], r, v, depth)
+            continue
+        stack.extend(ast.iter_child_nodes(x))
         if not (isinstance(x, ast.Name) and isinstance(x.ctx, ast.Load)) or x.id in bound:
             continue
-        for d in cfg.defs_reaching(at, x.id):
+        defs = cfg.defs_reaching(at, x.id)
+        if not defs and sc.outer is not None:
+            # a variable of the enclosing function read by a nested helper
+            out |= _step_flags(sc.outer[0], sc.outer[1], x, depth)
+        for d in defs:
+            if d.kind == "entry":
+                if x.id in sc.bind:
+                    csc, cat, arg = sc.bind[x.id]
+                    out |= _step_flags(csc, cat, arg, depth)
+                continue
             v = cfg.value_of_def(d, x.id)
             if isinstance(v, ast.Subscript) and _is_step_result(cfg, d, v.value):
                 # element k of the step result (tuple unpacking is encoded as <call>[k] by value_of_def)
                 if const_value(v.slice) in (2, 3):
                     out.add(const_value(v.slice))
             elif v is not None and depth > 0:
-                out |= _step_flags(cfg, d, v, depth - 1)
+                out |= _step_flags(sc, d, v, depth - 1)
     return out
 
 
@@ -413,36 +496,90 @@ def _is_step_result(cfg: CFG, at: Node, e: ast.AST) -> bool:
     return False
 
 
+def _single_value(sc: _Scope, at: Node, e: ast.AST) -> Optional[Tuple[_Scope, Node, ast.AST]]:
+    """The expression a name stands for: its only reaching definition when that is a plain binding, or the argument a helper's parameter
+    is bound to."""
+    if not isinstance(e, ast.Name):
+        return None
+    defs = sc.cfg.defs_reaching(at, e.id)
+    if len(defs) != 1:
+        return None
+    if defs[0].kind == "entry":
+        return sc.bind.get(e.id)
+    v = sc.cfg.value_of_def(defs[0], e.id)
+    return (sc, defs[0], v) if v is not None else None
+
+
+def _episode_over(sc: _Scope, at: Node, e: ast.AST, hops: int = 6) -> Tuple[bool, str]:
+    """Does the condition `e` (evaluated at `at`) say 'every agent is terminated or truncated'?  Temporaries holding the condition or the
+    combined flags are looked through; a call of a local helper is judged by every value the helper returns."""
+    sv = _single_value(sc, at, e) if hops > 0 else None
+    if sv is not None:
+        return _episode_over(sv[0], sv[1], sv[2], hops - 1)
+    if isinstance(e, ast.Call) and call_name(e) in ("all", "np.all") and e.args:
+        arg = e.args[0]
+        for _ in range(hops):
+            # a temporary holding the combined flags: judge the expression it is bound to
+            sv = _single_value(sc, at, arg)
+            if sv is None:
+                break
+            sc, at, arg = sv
+        return _per_agent_or(arg)
+    inner = sc.helper_body(e, at) if hops > 0 else None
+    if inner is not None:
+        rets = inner[0].returns()
+        verdicts = [_episode_over(inner[0], r, v, hops - 1) for r, v in rets]
+        bad = [w for ok, w in verdicts if not ok]
+        if not rets or bad:
+            return False, f"`{inner[1]}`: " + (bad[0] if bad else "returns no value")
+        return True, f"`{inner[1]}`: {verdicts[0][1]}"
+    if isinstance(e, ast.BoolOp):
+        return False, (f"`{short(e, 90)}` quantifies over the agents separately for each flag: an episode in which some agents terminated and "
+                       "the others were only truncated is over, but neither all(...) holds, so it is never reset")
+    return False, f"unrecognised reset condition `{short(e, 80)}`"
+
+
+def _reset_guards(sc: _Scope, fn: Fn) -> List[Tuple[ast.AST, bool, Node]]:
+    """(condition, polarity, test node) of every test on the agents' flags whose outcome decides whether a `reset` call of fn is
+    executed: `if` statements through the CFG (so `if c: reset` and `if not c: return` + reset are the same site) and conditional
+    expressions around the call inside its own statement."""
+    out: List[Tuple[ast.AST, bool, Node]] = []
+    seen: Set[int] = set()
+    for c in calls_in(fn.node):
+        n = sc.cfg.node_of(c) if last_attr(c) == "reset" else None
+        if n is None:
+            continue
+        guards = list(sc.cfg.guards_at(n))
+        for x in n.walk():
+            if isinstance(x, ast.IfExp):
+                in_body, in_else = any(y is c for y in ast.walk(x.body)), any(y is c for y in ast.walk(x.orelse))
+                if in_body != in_else:
+                    g, pol = x.test, in_body
+                    while isinstance(g, ast.UnaryOp) and isinstance(g.op, ast.Not):
+                        g, pol = g.operand, not pol
+                    guards.append((g, pol, n))
+        for g, pol, t in guards:
+            if id(g) not in seen and _step_flags(sc, t, g):
+                seen.add(id(g))
+                out.append((g, pol, t))
+    return out
+
+
 def _reset_condition(ck: Check, repo: Repo, worker: Fn) -> None:
     sites = []
-    cfgw = CFG(worker.node)
     for fn in (worker, repo.fn(WR, "PettingZooAutoResetParallelWrapper.step")):
-        cfg = CFG(fn.node)
-        found = False
-        for n in cfg.live_nodes():
-            if n.kind == "test" and isinstance(n.stmt, ast.If) and n.true_succ is not None:
-                body_calls = [c for s in n.stmt.body for c in calls_in(s) if last_attr(c) == "reset"]
-                if body_calls and _step_flags(cfg, n, n.ast):
-                    sites.append((fn, n, cfg))
-                    found = True
-        ck.ob("C12.4", fn, fn.node, found, f"{fn.qualname}: restarts the episode under a condition on the agents' termination / truncation flags",
+        sc = _Scope(repo, fn, fn.node)
+        guards = _reset_guards(sc, fn)
+        sites += [(fn, sc, g) for g in guards]
+        ck.ob("C12.4", fn, fn.node, bool(guards), f"{fn.qualname}: restarts the episode under a condition on the agents' termination / truncation flags",
               construct=f"{fn.qualname}: auto-reset site")
-    for fn, n, cfg in sites:
-        if isinstance(n.ast, ast.Call) and call_name(n.ast) in ("all", "np.all") and n.ast.args:
-            arg = n.ast.args[0]
-            if isinstance(arg, ast.Name):
-                # a temporary holding the combined flags: judge the expression it is bound to
-                defs = cfg.defs_reaching(n, arg.id)
-                if len(defs) == 1 and cfg.value_of_def(defs[0], arg.id) is not None:
-                    arg = cfg.value_of_def(defs[0], arg.id)
-            ok, why = _per_agent_or(arg)
-        elif isinstance(n.ast, ast.BoolOp):
-            ok, why = False, (f"`{short(n.ast, 90)}` quantifies over the agents separately for each flag: an episode in which some agents terminated and "
-                              "the others were only truncated is over, but neither all(...) holds, so it is never reset")
+    for fn, sc, (cond, pol, t) in sites:
+        if pol:
+            ok, why = _episode_over(sc, t, cond)
         else:
-            ok, why = False, f"unrecognised reset condition `{short(n.ast, 80)}`"
-        ck.ob("C12.4", fn, n.ast, ok, f"{fn.qualname}: an episode is over when every agent is terminated or truncated (combined per agent)", detail=why)
-        ck.ob("C12.4", fn, n.ast, _step_flags(cfg, n, n.ast) == {2, 3}, f"{fn.qualname}: both termination and truncation flags enter the condition")
+            ok, why = False, f"the episode is restarted when `{short(cond, 80)}` does NOT hold"
+        ck.ob("C12.4", fn, cond, ok, f"{fn.qualname}: an episode is over when every agent is terminated or truncated (combined per agent)", detail=why)
+        ck.ob("C12.4", fn, cond, _step_flags(sc, t, cond) == {2, 3}, f"{fn.qualname}: both termination and truncation flags enter the condition")
 
 
 # ------------------------------------------------------------------------------------------------
@@ -595,6 +732,8 @@ def _slices(ck: Check, repo: Repo) -> None:
 _AV = "agilerl/vector/pz_async_vec_env.py"
 _PV = "agilerl/vector/pz_vec_env.py"
 _WR = "agilerl/wrappers/pettingzoo_wrappers.py"
+_W_COND = "                if all(\n                    [\n                        term | trunc\n                        for term, trunc in zip(terminated.values(), truncated.values())\n                    ]\n                ):"
+_WR_COND = "        if np.all(\n            [\n                term or trunc\n                for term, trunc in zip(terminations.values(), truncations.values())\n            ]\n        ):"
 VARIANTS = [
     ("reset-seed-zero-unseeded", _AV, "        if seed is None:\n            seed = [None for _ in range(self.num_envs)]", "        if not seed:\n            seed = [None for _ in range(self.num_envs)]", "fire", "C12.8"),
     ("info-masks-share-one-array", _AV, "            array_mask = vector_infos.get(\n                f\"_{key}\", np.zeros(self.num_envs, dtype=np.bool_)\n            )", "            array_mask = vector_infos.get(f\"_{key}\", new_mask)", "fire", "C12.9"),
@@ -618,6 +757,40 @@ VARIANTS = [
     ("wrapper-all-or-all", _WR, "        if np.all(\n            [\n                term or trunc\n                for term, trunc in zip(terminations.values(), truncations.values())\n            ]\n        ):",
      "        if all(terminations.values()) or all(truncations.values()):", "fire", "C12.4"),
     ("worker-or-form-ok", _AV, "                        term | trunc\n", "                        term or trunc\n", "silent", None),
+    # the reset condition in a local helper (nested: a module-level helper with several statements behaves the same, the front end does not
+    # inline it into the test of an `if`), held in a temporary, as an early return, as a conditional expression
+    ("worker-condition-in-helper-ok", _AV, _W_COND,
+     "                def _all_agents_done(term_flags, trunc_flags):\n                    agent_done = [a | b for a, b in zip(term_flags.values(), trunc_flags.values())]\n"
+     "                    return all(agent_done)\n\n                if _all_agents_done(terminated, truncated):", "silent", None),
+    ("worker-condition-in-closure-ok", _AV, _W_COND,
+     "                def _all_agents_done():\n                    return all([a | b for a, b in zip(terminated.values(), truncated.values())])\n\n"
+     "                if _all_agents_done():", "silent", None),
+    ("worker-helper-list-or", _AV, _W_COND,
+     "                def _all_agents_done(term_flags, trunc_flags):\n                    return all(list(term_flags.values()) or list(trunc_flags.values()))\n\n"
+     "                if _all_agents_done(terminated, truncated):", "fire", "C12.4"),
+    ("worker-helper-same-flag-twice", _AV, _W_COND,
+     "                def _all_agents_done(term_flags, trunc_flags):\n                    agent_done = [a | b for a, b in zip(term_flags.values(), trunc_flags.values())]\n"
+     "                    return all(agent_done)\n\n                if _all_agents_done(terminated, terminated):", "fire", "C12.4"),
+    ("worker-helper-ignores-truncation", _AV, _W_COND,
+     "                def _all_agents_done(term_flags, trunc_flags):\n                    agent_done = [a | b for a, b in zip(term_flags.values(), term_flags.values())]\n"
+     "                    return all(agent_done)\n\n                if _all_agents_done(terminated, truncated):", "fire", "C12.4"),
+    ("worker-condition-via-temp-ok", _AV, _W_COND,
+     "                episode_over = all(\n                    [\n                        term | trunc\n"
+     "                        for term, trunc in zip(terminated.values(), truncated.values())\n                    ]\n                )\n"
+     "                if episode_over:", "silent", None),
+    ("worker-temp-termination-only", _AV, _W_COND, "                episode_over = all(terminated.values())\n                if episode_over:", "fire", "C12.4"),
+    ("wrapper-early-return-ok", _WR, _WR_COND + "\n            obs, infos = self.env.reset()\n",
+     "        agent_done = [\n            term or trunc\n            for term, trunc in zip(terminations.values(), truncations.values())\n        ]\n"
+     "        if not np.all(agent_done):\n            return obs, rewards, terminations, truncations, infos\n\n        obs, infos = self.env.reset()\n", "silent", None),
+    ("wrapper-early-return-inverted", _WR, _WR_COND + "\n            obs, infos = self.env.reset()\n",
+     "        agent_done = [\n            term or trunc\n            for term, trunc in zip(terminations.values(), truncations.values())\n        ]\n"
+     "        if np.all(agent_done):\n            return obs, rewards, terminations, truncations, infos\n\n        obs, infos = self.env.reset()\n", "fire", "C12.4"),
+    ("wrapper-conditional-expression-ok", _WR, _WR_COND + "\n            obs, infos = self.env.reset()\n",
+     "        obs, infos = self.env.reset() if np.all(\n            [\n                term or trunc\n"
+     "                for term, trunc in zip(terminations.values(), truncations.values())\n            ]\n        ) else (obs, infos)\n", "silent", None),
+    ("wrapper-conditional-expression-inverted", _WR, _WR_COND + "\n            obs, infos = self.env.reset()\n",
+     "        obs, infos = (obs, infos) if np.all(\n            [\n                term or trunc\n"
+     "                for term, trunc in zip(terminations.values(), truncations.values())\n            ]\n        ) else self.env.reset()\n", "fire", "C12.4"),
 ]
 
 
